@@ -112,6 +112,8 @@ class Ctx(object):
         self.max_cpu = 0.0
         self.inconclusive = []
         self.case_no = 0
+        self.confirmed_hangs = 0
+        self.partial_path = None
 
     # ---- tiers / sharding
     @property
@@ -174,6 +176,15 @@ class Ctx(object):
                 'key': key, 'msg': msg[:2000], 'witness': jsonable(witness),
                 'shard': self.shard, 'nshards': self.nshards,
             })
+            if self.viol_keys[key] == 1 and self.partial_path:
+                # first sighting of a mechanism: persist it, so that it survives even if this shard is later
+                # stopped by the wall-clock watchdog (e.g. a change that makes many calls hang)
+                try:
+                    with open(self.partial_path + '.tmp', 'w') as f:
+                        json.dump(self.result(), f)
+                    os.replace(self.partial_path + '.tmp', self.partial_path)
+                except (OSError, TypeError, ValueError):
+                    pass
 
     def inconclusive_because(self, reason):
         self.inconclusive.append(reason)
@@ -183,7 +194,11 @@ class Ctx(object):
         """Call fn under the CPU watchdog; returns ('ok', value) | ('exc', exception) |
         ('hang', None).  A first watchdog firing is retried alone with a 20x budget."""
         budget = kwargs.pop('_budget', 4.0)
-        for attempt, b in enumerate((budget, budget * 20)):
+        # once a non-terminating call has been confirmed with the long budget, later firings of the short
+        # budget are taken at face value (a change that makes a whole class of calls hang would otherwise
+        # cost 21x the budget per case and run the shard into the wall-clock watchdog)
+        budgets = (budget, budget * 20) if self.confirmed_hangs < 2 else (budget * 2,)
+        for attempt, b in enumerate(budgets):
             t0 = time.process_time()
             try:
                 with cpu_budget(b):
@@ -196,6 +211,7 @@ class Ctx(object):
             except Exception as exc:  # noqa
                 self.max_cpu = max(self.max_cpu, time.process_time() - t0)
                 return 'exc', exc
+        self.confirmed_hangs += 1
         return 'hang', None
 
     def result(self):
